@@ -95,3 +95,98 @@ def gen_fibersites(man):
 
 
 GENERATORS = {"FiberSites.v": gen_fibersites}
+
+
+# ---------------------------------------------------------------------------------------------------------
+# Arithmetic of the hashing code that is NOT in the subset of the r2g translator (closures, iterator chains):
+# `impl Hash for Value`, `impl Hash for Gc<ObjTuple>`, `impl Hash for Gc<ObjString>`, PassThroughHasher.
+# An overflow-CHECKED operator (+ - * / % << >> and their compound forms: panics in a dev build, wraps in a
+# release build) on full-width u64 hashes is a C10 divergence; the total operators (^ & |, wrapping_*) are not.
+# The table lists, per region, every checked operator with its neighbour tokens, and every total combiner.
+
+KEYWORDS = {"if", "else", "match", "return", "in", "let", "mut", "while", "for", "loop", "as", "move", "ref", "break",
+            "continue", "fn", "impl", "where", "unsafe", "use", "pub", "struct", "enum", "const", "static"}
+CHECKED = {"+", "-", "*", "/", "%", "<<", ">>", "+=", "-=", "*=", "/=", "%=", "<<=", ">>="}
+TOTAL = {"^", "^=", "wrapping_add", "wrapping_sub", "wrapping_mul", "wrapping_shl", "wrapping_shr"}
+
+
+def is_operand_end(t):
+    return (t.kind in ("num", "str", "chr") or (t.kind == "id" and t.text not in KEYWORDS and not t.text.endswith("!"))
+            or t.text in (")", "]", "?"))
+
+
+def find_impl(toks, head):
+    """token range of the body of `impl <head...> {`"""
+    k = len(head)
+    for i in range(len(toks) - k):
+        if toks[i].text == "impl" and [t.text for t in toks[i + 1:i + 1 + k]] == head:
+            j = i + 1 + k
+            while toks[j].text != "{":
+                j += 1
+            return j, match_group(toks, j)
+    return None
+
+
+def arith_of(toks, lo, hi):
+    checked, total = [], []
+    for j in range(lo + 1, hi):
+        t = toks[j]
+        if t.kind == "op" and t.text in CHECKED:
+            binary = is_operand_end(toks[j - 1])
+            if t.text in ("-", "*") and not binary:
+                if t.text == "-":
+                    checked.append("neg %s" % toks[j + 1].text)      # unary minus on an integer can overflow too
+                continue
+            if t.text in ("<<", ">>") and not binary:
+                continue
+            checked.append("%s %s %s" % (toks[j - 1].text, t.text, toks[j + 1].text))
+        elif (t.kind == "op" and t.text in TOTAL) or (t.kind == "id" and t.text in TOTAL):
+            total.append("%s %s %s" % (toks[j - 1].text, t.text, toks[j + 1].text))
+    return checked, total
+
+
+HASH_REGIONS = [("value.rs", ["Hash", "for", "Value"]),
+                ("object.rs", ["Hash", "for", "Gc", "<", "ObjTuple", ">"]),
+                ("object.rs", ["Hash", "for", "Gc", "<", "ObjString", ">"]),
+                ("hash.rs", ["Hasher", "for", "PassThroughHasher"]),
+                ("hash.rs", ["Default", "for", "PassThroughHasher"])]
+
+
+def gen_hasharith(man):
+    rows = []
+    for f, head in HASH_REGIONS:
+        toks = toks_of(f)
+        r = find_impl(toks, head)
+        name = "%s: impl %s" % (f, " ".join(head))
+        if r is None:
+            rows.append((name, ["unknown"], ["unknown"]))
+            continue
+        c, t = arith_of(toks, r[0], r[1])
+        rows.append((name, c, t))
+    # is any OTHER `impl Hash for` / `impl Hasher for` in the sources?  (a new hashable kind must be looked at)
+    others = []
+    for f in sorted(os.listdir(SRC)):
+        if not f.endswith(".rs"):
+            continue
+        toks = toks_of(f)
+        for i in range(len(toks) - 3):
+            if toks[i].text == "impl" and toks[i + 1].text in ("Hash", "Hasher", "BuildHasher") and toks[i + 2].text == "for":
+                j = i + 3
+                txt = []
+                while toks[j].text != "{":
+                    txt.append(toks[j].text)
+                    j += 1
+                others.append("%s: impl %s for %s" % (f, toks[i + 1].text, " ".join(txt)))
+    q = lambda s: '"%s"' % s.replace('"', "'")
+    ql = lambda l: "[%s]" % "; ".join(q(x) for x in l)
+    lines = ["(* GENERATED from value.rs / object.rs / hash.rs: arithmetic operators of the hashing code - do not edit *)",
+             "From Coq Require Import List String.", "Import ListNotations.", "Open Scope string_scope.", "",
+             "(* region, overflow-checked operators (panic in dev, wrap in release), total combiners *)",
+             "Definition hash_arith : list (string * list string * list string) := [%s]." % ";\n  ".join(
+                 "(%s, %s, %s)" % (q(n), ql(c), ql(t)) for n, c, t in rows),
+             "Definition hash_impls : list string := %s." % ql(others), ""]
+    man["hash_arith"] = {n: c for n, c, _ in rows}
+    return "\n".join(lines) + "\n"
+
+
+GENERATORS["HashArith.v"] = gen_hasharith
